@@ -36,19 +36,19 @@ def chk(pid, text, note, technique, ref):
 
 CHECKS = {
  "C16": chk("C16",
-   "Seeded search over schedules of the real multi-process LCD search (real KernelDG, _extend_path, networkx, Frontend) under a deterministic scheduler that owns process start, per-worker speed, manager delivery order and completion order, for worker counts {1,2,3,5,16,klen+3} around and above the 50-line threshold; oracle = ordered equality with the sequential search and byte-identical report; 15% of the runs go through the real entry point osaca.osaca.run; plus fresh-interpreter CLI repeats under different PYTHONHASHSEEDs, the same simulated schedule under another hash seed, real-multiprocessing cross-checks and a stub-fidelity test of the stand-ins against the real multiprocessing module. Sampling, not proof. Sensitivity: 7 own mutants and 5 independently written seeded changes are caught by the quick tier.",
+   "Seeded search over schedules of the real multi-process LCD search (real KernelDG, _extend_path, networkx, Frontend) under a deterministic scheduler that owns process start, per-worker speed, manager delivery order and completion order, for worker counts {1,2,3,5,16,klen+3} around and above the 50-line threshold; oracle = ordered equality with the sequential search and byte-identical report; 15% of the runs go through the real entry point osaca.osaca.run; plus fresh-interpreter CLI repeats under different PYTHONHASHSEEDs, the same simulated schedule under another hash seed, real-multiprocessing cross-checks and a stub-fidelity test of the stand-ins against the real multiprocessing module. Sampling, not proof. Sensitivity: 7 own mutants and 7 seeded changes written by sub-agents are caught by the quick tier.",
    "Trusts the stand-ins for multiprocessing.Process/Manager (fork = deep copy of arguments, one FIFO per manager connection), dyadic model latencies, and that the sequential branch is the specification.",
    "deterministic simulation: seeded scheduler over simulated processes + reference-model comparison", "DESIGN.md §4.1"),
  "C17": chk("C17",
-   "Seeded search over histories of a simulated machine (package data dir, user data dir, home cache, permission table) on which 1-4 simulated OSACA processes, each with a private copy of the package, run the real osaca.osaca.run with every file-system call intercepted: crashes / ENOSPC / EIO / EACCES at chosen events of the cache write, racing cold starts, machine crash cutting un-fsynced files, planted truncated / foreign-version / valid caches, read-only data dir, wipes, user-dir shadowing, model edits, long-lived processes; every report is compared with a cache-less reference; fourteen template histories spelling out the cache histories named by the quantifier; model edits by an external actor DURING a run; atexit handlers of simulated processes; plus a systematic sweep of the crash point over every mutation event of the cache write (single and racing writer, three chunkings). Sampling plus a small exhaustive sweep, not proof. Found and led to the repair of two defects (20d2aa6, d2d0840). Sensitivity: 11 own mutants and 5 seeded changes are caught by the quick tier.",
+   "Seeded search over histories of a simulated machine (package data dir, user data dir, home cache, permission table) on which 1-4 simulated OSACA processes, each with a private copy of the package, run the real osaca.osaca.run with every file-system call intercepted: crashes / ENOSPC / EIO / EACCES at chosen events of the cache write, racing cold starts, machine crash cutting un-fsynced files, planted truncated / foreign-version / valid caches, read-only data dir, wipes, user-dir shadowing, model edits, long-lived processes; every report is compared with a cache-less reference; fourteen template histories spelling out the cache histories named by the quantifier; model edits by an external actor DURING a run; atexit handlers of simulated processes; plus a systematic sweep of the crash point over every mutation event of the cache write (single and racing writer, three chunkings). Sampling plus a small exhaustive sweep, not proof. Found and led to the repair of two defects (20d2aa6, d2d0840). Sensitivity: 11 own mutants and 7 seeded changes are caught by the quick tier.",
    "Trusts the SimFS layer over real files (pessimistic crash model: un-fsynced data may be cut, renames persist), process isolation by private package copies, trimmed model/ISA files in the 'tiny' batches.",
    "deterministic simulation: simulated file system + crash/IO-error fault injection + racing processes, reference-model comparison per operation", "DESIGN.md §4.2"),
  "C18": chk("C18",
-   "Generated histories (2-12 analyses, adversarially biased: repeats, same kernel/other model, same model/other kernel, fixed<->optimal, ISA switches, post-exception, memory-composed / dependency-breaking / pre-post-indexed / unknown instructions) issued by one simulated long-lived process with a fresh package copy, compared element-wise with fresh real subprocess runs; a fresh in-process copy is cross-checked against the subprocess reference. Sampling, not proof. Sensitivity: 4 own mutants and 5 seeded changes are caught by the quick tier.",
+   "Generated histories (2-12 analyses, adversarially biased: repeats, same kernel/other model, same model/other kernel, fixed<->optimal, ISA switches, post-exception, memory-composed / dependency-breaking / pre-post-indexed / unknown instructions) issued by one simulated long-lived process with a fresh package copy, compared element-wise with fresh real subprocess runs; a fresh in-process copy is cross-checked against the subprocess reference. Sampling, not proof. Sensitivity: 4 own mutants and 7 seeded changes are caught by the quick tier.",
    "Trusts the fresh-subprocess reference (same hash seed, same warm scratch caches) and the text report as the observable.",
    "deterministic simulation (single long-lived process): generated call histories vs fresh-process reference model", "DESIGN.md §4.3"),
  "C19": chk("C19",
-   "Seeded search over schedules and kill points of the real poll/kill loop under a simulated clock: workers are pre-empted inside the path enumeration (sys.monitoring line events), the real kill loop delivers simulated SIGKILLs before/between/after deliveries; oracles: deadline invariant (timeout + 1.0 simulated s), warning iff cut short, every reported LCD validated edge-by-edge against the real two-iteration graph and against the untimed reference, throughput/CP cells unchanged, no worker alive at return, completeness when not cut; cost model with per-line search cost, manager round trips, per-element transfer cost and fork cost, so deadlines strike in the search, inside multi-part deliveries, during the parent's copy and during the launch; 15% of the runs go through osaca.osaca.run; sampled runs on the real multiprocessing module. Sampling, not proof. Found one repaired defect (19315c2) and one known finding (sequential branch ignores the timeout). Sensitivity: 8 own mutants and 5 seeded changes are caught by the quick tier.",
+   "Seeded search over schedules and kill points of the real poll/kill loop under a simulated clock: workers are pre-empted inside the path enumeration (sys.monitoring line events), the real kill loop delivers simulated SIGKILLs before/between/after deliveries; oracles: deadline invariant (timeout + 1.0 simulated s), warning iff cut short, every reported LCD validated edge-by-edge against the real two-iteration graph and against the untimed reference, throughput/CP cells unchanged, no worker alive at return, completeness when not cut; cost model with per-line search cost, manager round trips, per-element transfer cost and fork cost, so deadlines strike in the search, inside multi-part deliveries, during the parent's copy and during the launch; 15% of the runs go through osaca.osaca.run; sampled runs on the real multiprocessing module. Sampling, not proof. Found one repaired defect (19315c2) and one known finding (sequential branch ignores the timeout). Sensitivity: 8 own mutants and 7 seeded changes are caught by the quick tier.",
    "Trusts the cost model (simulated time passes only in sleep and traced search lines), the stand-ins for multiprocessing/time/os.kill, and kill delivery only between Python lines or at simulated OS calls.",
    "deterministic simulation: simulated clock + SIGKILL fault injection + invariants and history oracles", "DESIGN.md §4.4"),
 }
@@ -74,7 +74,7 @@ def main():
                      "kind_free_text": "hand-written deterministic simulator in Python: baton-passing threads as simulated processes, seeded choice sequence, discrete-event clock, sys.monitoring pre-emption, simulated SIGKILL, simulated file system layer, reference models, shrinker, replay"}],
         "checks": [CHECKS[c] for c in claimed],
         "not_applicable": sorted(na, key=lambda x: x["property_id"]),
-        "notes": "Technique studied: deterministic simulation with fault injection. fix: commits in /repo and known findings are listed in /verif/known_findings.json; see DESIGN.md.",
+        "notes": "Technique studied: deterministic simulation with fault injection. Genuine defects repaired in /repo by unguarded 'fix:' commits 19315c2 (C19), 20d2aa6 (C17), d2d0840 (C17); one known finding (C19, sequential branch ignores the LCD timeout) in /verif/known_findings.json; no hook commits. See DESIGN.md §8 and §9.",
     }
     json.dump(m, open("/verif/MANIFEST.json", "w"), indent=1)
     print("claimed", claimed)
